@@ -28,7 +28,14 @@ else:
 
 
 class TypeMatchEligibleExpression(str):
-    pass
+    matched_type: Type
+
+    def __new__(
+        cls, expression: str, matched_type: Type
+    ) -> "TypeMatchEligibleExpression":
+        obj = super().__new__(cls, expression)
+        obj.matched_type = matched_type
+        return obj
 
 
 NoneType = type(None)
